@@ -3,6 +3,7 @@ package sim
 import (
 	"bytes"
 	"fmt"
+	"os"
 	"sort"
 
 	"github.com/mosaicnetworks/babble/src/crypto/keys"
@@ -971,6 +972,52 @@ func (c *Cluster) stronglySeesModel(x, w string, V []string) bool {
 	return cnt >= superMajority(len(V))
 }
 
+// stronglySeesCoordModel: strongly-see as babble's event coordinates define it
+// (see refDag.coordCount): validator m counts if its first event e that
+// descends from w is an ancestor of x and no witness lies on w's creator's
+// chain between w (exclusive) and e's last ancestor on that chain (inclusive).
+// Votes are collected with this relation; round increments never meet the
+// difference (their paths do not cross a later round).
+func (c *Cluster) stronglySeesCoordModel(x, w string, V []string, isWitness func(string) bool) bool {
+	ax := c.dag.ancestors(x)
+	ew := c.dag.events[w]
+	if ax == nil || ew == nil {
+		return false
+	}
+	q := ew.Creator
+	cnt := 0
+	for _, m := range V {
+		k, ok := ax[m]
+		if !ok {
+			continue
+		}
+		z, ok := c.dag.byCI[m][k]
+		if !ok || !c.dag.isAncestor(w, z) {
+			continue
+		}
+		first := z
+		for i := k - 1; i >= 0; i-- {
+			e, ok := c.dag.byCI[m][i]
+			if !ok || !c.dag.isAncestor(w, e) {
+				break
+			}
+			first = e
+		}
+		a := c.dag.ancestors(first)[q]
+		clear := true
+		for t := ew.Index + 1; t <= a; t++ {
+			if h, ok := c.dag.byCI[q][t]; ok && isWitness(h) {
+				clear = false
+				break
+			}
+		}
+		if clear {
+			cnt++
+		}
+	}
+	return cnt >= superMajority(len(V))
+}
+
 func (c *Cluster) checkQuorums(n *SimNode) {
 	if !n.running() || n.ffDone || n.isObserver || len(c.dag.forks) > 0 {
 		return
@@ -1084,5 +1131,198 @@ func (c *Cluster) checkQuorums(n *SimNode) {
 		}
 		n.roundChecked[r] = true
 		c.stats.probe("c10-quorum-decided-round-checked")
+	}
+	c.checkFameQuorums(n)
+}
+
+// refMiddleBit: the coin of a coin round is the middle byte of the voting
+// witness's hash (zero: no, anything else: yes).
+func refMiddleBit(hexHash string) bool {
+	b, err := decodeHex(hexHash)
+	if err != nil {
+		return true
+	}
+	if len(b) > 0 && b[len(b)/2] == 0 {
+		return false
+	}
+	return true
+}
+
+// fameByModel recomputes, from true reachability over the harness's DAG record
+// and the validator-set model, what the witnesses the node knows in rounds
+// r+1..lr decide about witness x of round r. ok=false: not computable (rounds
+// evicted, witnesses outside the record). decided=false: nobody decides yet.
+func (c *Cluster) fameByModel(store hg.Store, isWitness func(string) bool, x string, r, lr int) (ok, decided, v bool, by string, j int) {
+	coin := int(hg.COIN_ROUND_FREQ)
+	votes := map[string]bool{}
+	var prev []string
+	for j = r + 1; j <= lr; j++ {
+		rj, err := store.GetRound(j)
+		if err != nil {
+			return false, false, false, "", j
+		}
+		wj := rj.Witnesses()
+		sort.Strings(wj)
+		for _, y := range wj {
+			if c.dag.events[y] == nil {
+				return false, false, false, "", j
+			}
+		}
+		Vj := c.vs.at(j)
+		Vp := c.vs.at(j - 1)
+		diff := j - r
+		for _, y := range wj {
+			if diff == 1 {
+				votes[y] = c.dag.isAncestor(x, y)
+				if debugTrace {
+					fmt.Fprintf(os.Stderr, "  fame model: x=%s r=%d j=%d y=%s (creator n%d) sees=%v\n", short(x), r, j, short(y), c.byPub[c.dag.events[y].Creator].idx, votes[y])
+				}
+				continue
+			}
+			yays, nays := 0, 0
+			for _, w := range prev {
+				if c.stronglySeesCoordModel(y, w, Vp, isWitness) {
+					if votes[w] {
+						yays++
+					} else {
+						nays++
+					}
+				}
+			}
+			vv, t := false, nays
+			if yays >= nays {
+				vv, t = true, yays
+			}
+			if debugTrace {
+				fmt.Fprintf(os.Stderr, "  fame model: x=%s r=%d j=%d y=%s (creator n%d) yays=%d nays=%d |Vj|=%d |Vj-1|=%d prev=%d\n", short(x), r, j, short(y), c.byPub[c.dag.events[y].Creator].idx, yays, nays, len(Vj), len(Vp), len(prev))
+			}
+			if diff%coin != 0 {
+				votes[y] = vv
+				if t >= superMajority(len(Vj)) {
+					if decided && v != vv {
+						// two deciders of one round disagree: cannot happen in a fork-free DAG
+						return false, false, false, "", j
+					}
+					decided, v, by = true, vv, y
+				}
+			} else if t >= superMajority(len(Vj)) {
+				votes[y] = vv
+			} else {
+				votes[y] = refMiddleBit(y)
+			}
+		}
+		if decided {
+			return true, true, v, by, j
+		}
+		prev = wj
+	}
+	return true, false, false, "", lr
+}
+
+// checkFameQuorums: every fame decision of the node is the decision of more
+// than two thirds of the deciding round's validator set, votes being collected
+// through the previous round's set; and a decision that the node's own events
+// support has been taken.
+func (c *Cluster) checkFameQuorums(n *SimNode) {
+	h := n.core().Hashgraph()
+	store := h.Store
+	if n.fameChecked == nil {
+		n.fameChecked = map[string]bool{}
+	}
+	lr := store.LastRound()
+	budget := 60
+	wcache := map[string]bool{}
+	isWitness := func(hash string) bool {
+		if v, ok := wcache[hash]; ok {
+			return v
+		}
+		v, err := h.SimWitness(hash)
+		if err != nil {
+			v = false
+		}
+		wcache[hash] = v
+		return v
+	}
+	for r := 0; r <= lr && budget > 0; r++ {
+		ri, err := store.GetRound(r)
+		if err != nil {
+			continue
+		}
+		ws := ri.Witnesses()
+		sort.Strings(ws)
+		for _, x := range ws {
+			if n.fameChecked[x] || c.dag.events[x] == nil {
+				continue
+			}
+			_, _, fame := ri.SimFame(x)
+			if fame == 0 && ri.SimDecided() {
+				// a witness that arrived after its round was decided is never voted on
+				continue
+			}
+			budget--
+			ok, decided, v, by, j := c.fameByModel(store, isWitness, x, r, lr)
+			if !ok {
+				c.stats.probe("c10-fame-not-computable")
+				if fame != 0 {
+					n.fameChecked[x] = true
+				}
+				continue
+			}
+			if debugTrace && ((fame != 0) != decided || (decided && (fame == 1) != v)) {
+				for jj := r + 1; jj <= lr; jj++ {
+					rj, err := store.GetRound(jj)
+					rp, err2 := store.GetRound(jj - 1)
+					if err != nil || err2 != nil {
+						continue
+					}
+					for _, y := range rj.Witnesses() {
+						ey, _ := store.GetEvent(y)
+						for _, w := range rp.Witnesses() {
+							ew, _ := store.GetEvent(w)
+							if ey == nil || ew == nil {
+								continue
+							}
+							cnt := 0
+							for _, p := range c.vs.at(jj - 1) {
+								la, ok1 := ey.SimLastAncestors()[p]
+								fd, ok2 := ew.SimFirstDescendants()[p]
+								if ok1 && ok2 && la.Index >= fd.Index {
+									cnt++
+								}
+							}
+							if (cnt >= superMajority(len(c.vs.at(jj-1)))) != c.stronglySeesCoordModel(y, w, c.vs.at(jj-1), isWitness) {
+								dy, dw := c.dag.events[y], c.dag.events[w]
+								fmt.Fprintf(os.Stderr, "  MISMATCH y=n%d#%d w=n%d#%d\n", c.byPub[dy.Creator].idx, dy.Index, c.byPub[dw.Creator].idx, dw.Index)
+								for _, p := range c.vs.at(jj - 1) {
+									la, ok1 := ey.SimLastAncestors()[p]
+									fd, ok2 := ew.SimFirstDescendants()[p]
+									ax := c.dag.ancestors(y)
+									fmt.Fprintf(os.Stderr, "     validator n%d: y.lastAncestor=%d(%v) w.firstDescendant=%d(%v) model lastAncestor=%d\n", c.byPub[p].idx, la.Index, ok1, fd.Index, ok2, ax[p])
+								}
+							}
+							fmt.Fprintf(os.Stderr, "  node %d coords: round %d witness %s (n%d) -> round %d witness %s (n%d): %d validators on paths; model strongly sees: %v\n", n.idx, jj, short(y), c.byPub[c.dag.events[y].Creator].idx, jj-1, short(w), c.byPub[c.dag.events[w].Creator].idx, cnt, c.stronglySeesCoordModel(y, w, c.vs.at(jj-1), isWitness))
+						}
+					}
+				}
+			}
+			switch {
+			case fame != 0 && !decided:
+				c.violate("C10", "quorum", "fame-decided-below-two-thirds", "node %d has decided the fame of witness %s (round %d) as %v, but among the witnesses it knows up to round %d none collects more than two thirds of its round's validator set in votes", n.idx, short(x), r, fame == 1, lr)
+				return
+			case fame != 0 && decided && (fame == 1) != v:
+				c.violate("C10", "quorum", "fame-differs-from-round-sets", "node %d has decided the fame of witness %s (round %d) as %v; counted with the validator sets of the rounds concerned, witness %s of round %d decides %v", n.idx, short(x), r, fame == 1, short(by), j, v)
+				return
+			case fame == 0 && decided:
+				c.violate("C10", "quorum", "fame-undecided-despite-two-thirds", "node %d has not decided the fame of witness %s (round %d) although witness %s of round %d, which it holds, collects more than two thirds of that round's validator set (%v)", n.idx, short(x), r, short(by), j, v)
+				return
+			}
+			if fame != 0 {
+				n.fameChecked[x] = true
+				c.stats.probe("c10-fame-decision-checked")
+				if len(c.vs.at(j)) != len(c.vs.at(j-1)) || len(c.vs.at(j)) != len(c.vs.at(r)) {
+					c.stats.probe("c10-fame-decision-across-set-change-checked")
+				}
+			}
+		}
 	}
 }
